@@ -30,7 +30,10 @@ try:
         return p.returncode
     if a.demo:
         run_demo("clean")
-    subprocess.check_call(["git", "-C", wt, "apply", os.path.abspath(a.patch)])
+    if subprocess.call(["git", "-C", wt, "apply", os.path.abspath(a.patch)]) != 0:
+        # the library moved on since the patch was written: try a 3-way merge before giving up
+        subprocess.check_call(["git", "-C", wt, "apply", "--3way", os.path.abspath(a.patch)])
+        print("NOTE: patch applied with --3way")
     if a.demo:
         run_demo("patched")
     if not a.no_tests:
